@@ -5,6 +5,7 @@ import Driver.Engine
 import Driver.Memo
 import Driver.Decode
 import Driver.Http
+import Driver.Faults
 /-!
   Line-protocol driver.  One request per line:
 
@@ -64,12 +65,20 @@ def engineJudge (eng : String) (args obs : List String) : Bool :=
   | "iso" => (match Eng.isoModel args with | some m => m == " ".intercalate obs | none => !obs.contains "PANIC")
   | _ => true
 
+/-- `fault` lines compare the model with a projection of the report (the report has extra tokens) -/
+def handleFault (args obs : List String) : String :=
+  let p := if Faults.monitor args obs then "1" else "0"
+  match Faults.model args with
+  | none => s!"X {p}"
+  | some m => if m == Faults.project obs then (if p == "1" then "A" else s!"V 0 {m}") else s!"D {p} {m}"
+
 def handle (line : String) : String :=
   let toks := (line.splitOn " ").filter (· != "")
   match toks with
   | [] => "E empty"
   | eng :: rest =>
     let (args, obs) := splitArrow rest
+    if eng == "fault" then handleFault args obs else
     let p := if engineJudge eng args obs then "1" else "0"
     match engineModel eng args with
     | none => s!"X {p}"
